@@ -117,11 +117,10 @@ func SortObjs(objs object.UnstructuredSet) ([]object.UnstructuredSet, error) {
 func ReverseSortObjs(objs object.UnstructuredSet) ([]object.UnstructuredSet, error) {
 	// Sorted objects using normal ordering.
 	s, err := SortObjs(objs)
-	if err != nil {
-		return s, err
-	}
+	// Reverse the partial result too: SortObjs still orders the objects
+	// which are not part of an error (e.g. a cycle).
 	ReverseSetList(s)
-	return s, nil
+	return s, err
 }
 
 // ReverseSetList deep reverses of a list of object lists
